@@ -261,7 +261,8 @@ class Ctx:
         if tags:
             cmd += ["-tags", tags]
         if gcflags:
-            cmd += ["-gcflags=" + gcflags]
+            # -race turns on checkptr, which rejects goom's deliberate unsafe pointer arithmetic (not a data race)
+            cmd += ["-gcflags=" + gcflags + (" -d=checkptr=0" if race else "")]
         if ldflags:
             cmd += ["-ldflags=" + ldflags]
         if race:
